@@ -505,7 +505,11 @@ class Interpreter:
             for t1, t2 in combinations(transitions, 2):
                 # Check (1)
                 lca = cast(str, self._statechart.least_common_ancestor(t1.source, t2.source))
-                lca_state = self._statechart.state_for(lca)
+                # Transitions of a same state (including the root state) are never orthogonal
+                if lca is None or t1.source == t2.source:
+                    lca_state = None
+                else:
+                    lca_state = self._statechart.state_for(lca)
 
                 # Their LCA must be an orthogonal state!
                 if not isinstance(lca_state, OrthogonalState):
